@@ -11,6 +11,7 @@ let s_life = function Raw -> "Raw" | Live -> "Live" | Dead -> "Dead"
 let s_val = function VIndet -> "indet" | VDefault -> "default" | VResult -> "result"
 let s_err = function None -> "none" | Some ERet -> "retValue-outside-lifetime" | Some EFlag -> "jobFinished-outside-lifetime"
                    | Some EImpl -> "taskImpl-outside-lifetime-or-destroyed-while-task-runs"
+                   | Some ERace -> "get()-no-wait-path-races-on-retValue(flag-does-not-publish)"
 let s_cp = function CCons k -> "construct#" ^ string_of_int (int_of_nat k) | CIdle -> "idle" | CGet0 -> "get:test" | CGetW -> "get:wait"
                   | CGetR -> "get:read" | CWaitW -> "wait" | CDtorW -> "dtor:wait" | CDtor k -> "dtor:destroy#" ^ string_of_int (int_of_nat k)
                   | CDone -> "dtor-returned"
